@@ -332,6 +332,8 @@ func (x *Exec) builtin(st *State, c *ast.CallExpr, name string) []Value {
 		x.unsup(c.Pos(), "%s of %s", name, v.Ty)
 	case "append":
 		return []Value{x.appendCall(st, c)}
+	case "copy":
+		return []Value{x.copyCall(st, c)}
 	case "make":
 		t := x.typeOf(c)
 		switch u := t.Underlying().(type) {
@@ -377,6 +379,39 @@ func (x *Exec) builtin(st *State, c *ast.CallExpr, name string) []Value {
 	}
 	x.unsup(c.Pos(), "builtin %s", name)
 	return nil
+}
+
+// copyCall models copy(dst, src) exactly: n = min(len(dst), len(src)) elements
+// are moved (memmove semantics: the source is read from the heap before the
+// call), every other element of dst's array is unchanged.
+func (x *Exec) copyCall(st *State, c *ast.CallExpr) Value {
+	vc := x.vc
+	d := x.expr(st, c.Args[0])
+	s := x.expr(st, c.Args[1])
+	dt, ok := d.Ty.Underlying().(*types.Slice)
+	if !ok || isStrT(s.Ty) {
+		x.unsup(c.Pos(), "copy from a string / into a non-slice")
+	}
+	if _, ok := s.Ty.Underlying().(*types.Slice); !ok {
+		x.unsup(c.Pos(), "copy from %s", s.Ty)
+	}
+	k := vc.sliceKind(dt.Elem())
+	arrSort := arraySort(vc.idx(), vc.sortOf(dt.Elem()))
+	dref, doff, dln := vc.slRef(d.T), vc.slOff(d.T), vc.slLen(d.T)
+	sref, soff, sln := vc.slRef(s.T), vc.slOff(s.T), vc.slLen(s.T)
+	n := vc.name(st, "ncopy", tIte(vc.ile(dln, sln), dln, sln))
+	h := vc.heapOfKind(st, k)[0]
+	dArr := vc.name(st, "dst", tSelect(h, dref))
+	sArr := vc.name(st, "src", tSelect(h, sref))
+	narr := vc.fresh("arr", arrSort)
+	vc.n++
+	bv := fmt.Sprintf("k!%d", vc.n)
+	kv := Term{S: bv, Sort: vc.idx()}
+	body := tEq(tSelect(narr, kv), tIte(tAnd(vc.ile(doff, kv), vc.ilt(kv, vc.iadd(doff, n))),
+		tSelect(sArr, vc.iadd(soff, vc.isub(kv, doff))), tSelect(dArr, kv)))
+	st.assume(Term{S: fmt.Sprintf("(forall ((%s %s)) (! %s :pattern ((select %s %s))))", bv, vc.idx(), body.S, narr.S, bv), Sort: "Bool"})
+	st.heaps[k.Name] = vc.name(st, k.Name, tStore(h, dref, narr))
+	return Value{T: n, Ty: types.Typ[types.Int]}
 }
 
 // appendCall models append exactly (in place when capacity suffices).
@@ -1155,7 +1190,55 @@ func (e *SpecEnv) pureCall(x *SCall) (Value, bool) {
 		}
 		return rs[0], true
 	}
-	return e.vc.pureApp(e.st, cal, recv, args), true
+	res := e.vc.pureApp(e.st, cal, recv, args)
+	e.pureAppFacts(cal, recv, args, res)
+	return res, true
+}
+
+// pureAppFacts: a pure function applied inside a spec is an uninterpreted
+// application; what its (verified) contract says about that application -
+// requires ==> ensures, instantiated at these arguments - is added as a global
+// fact, once per distinct closed application.
+func (e *SpecEnv) pureAppFacts(cal *Callee, recv *Value, args []Value, res Value) {
+	vc := e.vc
+	if strings.Contains(res.T.S, "!q") || len(cal.ct.Ensures) == 0 || e.depth > 30 {
+		return
+	}
+	if vc.pureFacts == nil {
+		vc.pureFacts = map[string]bool{}
+	}
+	if vc.pureFacts[res.T.S] {
+		return
+	}
+	vc.pureFacts[res.T.S] = true
+	if cal.ct.Mode != vc.mode {
+		if err := crossModeOK(cal.ct); err != "" {
+			e.fail("contract of pure %s (mode %s) used from mode %s: %s", cal.key, cal.ct.Mode, vc.mode, err)
+		}
+	}
+	vars := map[string]Value{}
+	if recv != nil {
+		vars[cal.recvName] = Value{T: recv.T, Ty: cal.recvType}
+	}
+	for i, n := range cal.pNames {
+		if i < len(args) {
+			v := args[i]
+			v.Ty = cal.pTypes[i]
+			vars[n] = v
+		}
+	}
+	env := &SpecEnv{vc: vc, pkg: cal.pkg, vars: vars, st: e.st, old: e.st, oldVars: vars, tparams: cal.tparams, allocOld: e.st.alloc, exec: e.exec, depth: e.depth + 1}
+	for _, n := range cal.resultNames(0) {
+		env.vars[n] = res
+	}
+	var pres []Term
+	for _, r := range cal.ct.Requires {
+		pres = append(pres, env.eval(r.Expr).T)
+	}
+	pre := tAnd(pres...)
+	for _, c := range cal.ct.Ensures {
+		vc.axioms = append(vc.axioms, tImplies(pre, env.eval(c.Expr).T))
+	}
 }
 
 func sortedNames(m map[string]Value) []string {
